@@ -16,8 +16,8 @@ func ghost_old_emitted() int { panic("ghost") }
 //@ shared gCid guarded_by atomic C18.cid.atomic
 
 // a new context carries the incremented counter: with atomic increments no two contexts share an id
-//@ assigns WithContext global(gCid), ghost.lastatomic, ghost.ctx
-//@ assigns AliasContext global(gCid), ghost.lastatomic, ghost.ctx
+//@ assigns WithContext global(gCid), ghost.lastatomic
+//@ assigns AliasContext global(gCid), ghost.lastatomic
 //@ requires WithContext
 func req_WithContext(ctx context.Context) bool { return ctx != nil }
 
